@@ -17,6 +17,7 @@ import Driver.C19
 import Driver.C16
 import Driver.C11
 import Driver.C09
+import Driver.C13
 open Kv
 
 structure DState where
@@ -50,6 +51,7 @@ def dispatch (st : DState) (prop : String) (l : Line) : DState × String :=
   | "C19" => (st, Drv.C19.step l)
   | "C16" => let (s, r) := Drv.C16.step st.c16 l; ({ st with c16 := s }, r)
   | "C09" => (st, Drv.C09.step l)
+  | "C13" => (st, Drv.C13.step l)
   | _ => (st, "bad-op")
 
 def main : IO Unit := driverMain dispatch {}
